@@ -455,6 +455,8 @@ class CtorChecker:
         if bad_window:
             self.add("C06.window", construct, "bad-window-accepted", "t_to < t_from does not raise ValueError", wit)
             return
+        if isinstance(val, Opaque):
+            raise Unsupported(None, "time_slice returns a value the interpretation does not know: %r" % (val,))
         if not isinstance(val, NewGraph):
             self.add("C06.result", construct, "not-a-new-graph", "time_slice returns %r instead of a new graph" % (val,), wit)
             return
@@ -713,6 +715,8 @@ class CtorChecker:
     def _judge_links(self, cls, construct, n, ot, w, kind, val, loop=False):
         wit = "%s%d interval(s) | order: %s" % ("self-loop, " if loop else "", n, ot.describe())
         if kind == "ok":
+            if isinstance(val, Opaque):
+                raise Unsupported(None, "node_link_data returns a value the interpretation does not know: %r" % (val,))
             if not isinstance(val, DictObj):
                 self.add("C11.data", construct, "not-a-dict", "node_link_data returns %r" % (val,), wit)
                 return
